@@ -72,6 +72,10 @@ def gen_desc(verif_seed: int, i: int, tier: str = "quick") -> dict:
         kinds = ["missing_ref_param", "param_without_in", "missing_ref_schema", "missing_ref_body", "parameters_not_list", "param_null"]
         plain = [k for k in gen.op_keys(udesc) if "/notes" not in k]
         udesc["malformed"] = {"op": r2.choice(plain), "kind": r2.choice(kinds[:4] * 3 + kinds[4:])}
+        others = [k for k in plain if k != udesc["malformed"]["op"]]
+        if others and r2.random() < 0.5:
+            # a second (sometimes third) damaged operation: each must be reported under its own path
+            udesc["malformed_more"] = [{"op": o, "kind": r2.choice(kinds[:4] * 3 + kinds[4:])} for o in r2.sample(others, min(len(others), r2.choice([1, 1, 2])))]
     sched = gen.gen_schedule(rng, fault_free=rng.random() < 0.15)
     if sched.get("kind") != "default":
         sched["p_line"] = rng.choice([0.01, 0.05, 0.2])
@@ -275,6 +279,7 @@ class C08Profile(Profile):
         iterator = schema.get_all_operations()
         it_lock = S.SimLock()  # the engine's TaskProducer guards the shared iterator with a lock as well
         seen_iter: list = []
+        err_objs: list = []
         kinds = ["iter", "iter", "by_path", "by_path", "by_id", "by_id", "resp_schema", "statistic"]
         if not multi:
             kinds += ["by_ref", "by_ref"]
@@ -341,6 +346,7 @@ class C08Profile(Profile):
                         else:
                             err = item.err()
                             seen_iter.append(("err", f"{(err.method or '?').upper()} {err.path}"))
+                            err_objs.append((f"{(err.method or '?').upper()} {err.path}", err))
                     elif kind == "by_path":
                         note("by_path")
                         op = schema[refop.path][refop.method.lower()]
@@ -394,10 +400,13 @@ class C08Profile(Profile):
                 else:
                     err = item.err()
                     seen_iter.append(("err", f"{(err.method or '?').upper()} {err.path}"))
+                    err_objs.append((f"{(err.method or '?').upper()} {err.path}", err))
         except Exception as exc:  # noqa: BLE001 - e.g. the resolver's scope stack was left corrupted by the callers
             st["log"].append(traceback.format_exc()[-1500:])
             bad("lookup_raised", f"draining get_all_operations() raised {type(exc).__name__}: {str(exc)[:200]}", "iter")
         st["seen_iter"] = seen_iter
+        # what a caller sees who collects the results first and looks at the errors afterwards
+        st["err_relabelled"] = [(was, f"{(e.method or '?').upper()} {e.path}") for was, e in err_objs if was != f"{(e.method or '?').upper()} {e.path}"]
         ctx.exit_code = 0
 
     # -----------------------------------------------------------------------------------------
